@@ -47,10 +47,41 @@ type Case struct {
 	Name   string
 }
 
+// Line is the replayable form of a case: "c05x.run <format> <opts> <schedule> x<hex input>", or, for
+// the large generated inputs, "c05x.gen <format> <opts> <schedule> <family>:<generator>@<parameter>".
 func (c Case) Line() string {
 	o := c.Opts
-	return fmt.Sprintf("c05x.run %s %s%s%s%s%d,%s,%s %s,%d,%d,%s %s", c.Format, b01(o.Offsets), b01(o.Base), b01(o.Lax), b01(o.Loader), o.Profile, orDash(o.Mode), orDash(o.Dir),
-		c.Sched.Chunk, c.Sched.Seed, c.Sched.FaultAt, orDash(c.Sched.Fault), vh.X(c.Input))
+	head := fmt.Sprintf("%s %s%s%s%s%d,%s,%s %s,%d,%d,%s", c.Format, b01(o.Offsets), b01(o.Base), b01(o.Lax), b01(o.Loader), o.Profile, orDash(o.Mode), orDash(o.Dir),
+		c.Sched.Chunk, c.Sched.Seed, c.Sched.FaultAt, orDash(c.Sched.Fault))
+	if (c.Family == "nest" || c.Family == "huge") && len(c.Input) > 4096 && !strings.Contains(c.Name, " ") {
+		return "c05x.gen " + head + " " + c.Family + ":" + c.Name
+	}
+	return "c05x.run " + head + " " + vh.X(c.Input)
+}
+
+// generated rebuilds the input of a "c05x.gen" line.
+func generated(format, ref string) ([]byte, string, string, bool) {
+	fam, name, ok := strings.Cut(ref, ":")
+	gen, param, ok2 := strings.Cut(name, "@")
+	var n int
+	if _, err := fmt.Sscan(param, &n); !ok || !ok2 || err != nil {
+		return nil, "", "", false
+	}
+	switch fam {
+	case "nest":
+		for _, g := range nestGens[format] {
+			if g.Name == gen {
+				return g.F(n), fam, name, true
+			}
+		}
+	case "huge":
+		for _, g := range hugeGens[format] {
+			if g.Name == gen {
+				return g.F(n), fam, name, true
+			}
+		}
+	}
+	return nil, "", "", false
 }
 
 func orDash(s string) string {
@@ -68,7 +99,7 @@ func unDash(s string) string {
 
 func parseLine(l string) (Case, bool) {
 	f := strings.Fields(l)
-	if len(f) != 5 || f[0] != "c05x.run" {
+	if len(f) != 5 || (f[0] != "c05x.run" && f[0] != "c05x.gen") {
 		return Case{}, false
 	}
 	c := Case{Format: f[1], Family: "replay", Name: "replay"}
@@ -84,6 +115,14 @@ func parseLine(l string) (Case, bool) {
 	c.Sched = Sched{Chunk: sp[0], Fault: unDash(sp[3])}
 	fmt.Sscan(sp[1], &c.Sched.Seed)
 	fmt.Sscan(sp[2], &c.Sched.FaultAt)
+	if f[0] == "c05x.gen" {
+		in, fam, name, ok := generated(c.Format, f[4])
+		if !ok {
+			return Case{}, false
+		}
+		c.Input, c.Family, c.Name = in, fam, name
+		return c, true
+	}
 	b, err := vh.UnX(f[4])
 	if err != nil {
 		return Case{}, false
